@@ -335,3 +335,13 @@ Theorem C03_node_alias_refuted :
   firmware_outputs_ir false w_flash_branch [0%nat] = Some [VList [VInt 255; VInt 0]] /\ flow_ok w_flash_branch = true.
 Proof. exact alias_refuted. Qed.
 Print Assumptions C03_node_alias_refuted.
+
+(* the flow guard counts every len(name) INSIDE a right-hand side / append / remove argument as a fold site (the real
+   translation folds it through the environment; ConstFlow.lens_agree): re-assigning s in a branch puts a later
+   q = len(s) + 1 outside the guard, re-assigning another name does not *)
+Example C03_rhs_len_is_a_fold_site :
+  flow_ok (w_rhs_len [SAssign n_s (EStr [97;98;99;100])]) = false /\
+  flow_ok (w_rhs_len [SAssign n_msg (EStr [97;98;99;100])]) = true /\
+  python_outputs (w_rhs_len [SAssign n_msg (EStr [97;98;99;100])]) [1%nat] = Some [VInt 3].
+Proof. exact rhs_len_fold_site. Qed.
+Print Assumptions C03_rhs_len_is_a_fold_site.
